@@ -30,7 +30,8 @@ ASSUMPTIONS = [
     'a unary minus and its operand',
 ]
 FLOORS = {'parses': 3000, 'delimiters_in_strings': 14,
-          'parses_with_defined_names': 500}
+          'parses_with_defined_names': 500,
+          'parses_on_reused_parser': 3000, 'rejected_formulas_fed': 50}
 ANCHOR_FUNCS = {
     'xlcalculator/parser.py': ['FormulaParser.parse',
                                'FormulaParser.shunting_yard',
@@ -326,6 +327,7 @@ class Runner:
     def __init__(self, ctx):
         self.ctx = ctx
         self.delims_seen = set()
+        self.shared = None
 
     def one(self, ast, variant, kind):
         from xlcalculator import parser, tokenizer, xltypes
@@ -370,6 +372,31 @@ class Runner:
                       'observed_tree': have, 'features': sorted(tags)},
                      kf=classify(tags, got), monitor='parse-tree',
                      group='tree:' + kind + ':'.join(sorted(tags)))
+            return
+        # ONE parser object used for many formulas, some of them rejected
+        # (an unclosed parenthesis raises): what it rejected must not show in
+        # what it parses next
+        if self.shared is None:
+            self.shared = parser.FormulaParser()
+        if rng.random() < 0.05:
+            bad = rng.choice(['=SUM(1', '=2*(A1+1', '=IF(A1,(2,3)', '=((1',
+                              '=SUM(1,2))', '="abc', '=1+'])
+            subject.outcome_of_raw(lambda: self.shared.parse(bad, {}))
+            ctx.event('rejected_formulas_fed')
+        got_s = subject.outcome_of_raw(lambda: self.shared.parse(text, {}))
+        ctx.event('parses_on_reused_parser')
+        have_s = fold_pct(canon_lib(got_s[1])) if got_s[0] == 'value' \
+            else None
+        if have_s is None or not same_tree(have_s, want):
+            ctx.fail(f'a FormulaParser object used for other formulas before '
+                     f'(some rejected) parses {text!r} to '
+                     f'{repr(have_s)[:300] if have_s else got_s[1]}, a fresh '
+                     f'one to the tree the text denotes',
+                     {'formula': text, 'expected_tree': want,
+                      'observed': repr(have_s)[:600] if have_s else got_s[1]},
+                     monitor='parse-tree', group='reused-parser:' + (
+                         'raise' if have_s is None else 'tree'))
+            self.shared = None
             return
         # the workbook may define names; a string literal that happens to be
         # spelt like one of them is still that string
